@@ -46,12 +46,14 @@ pub struct CycleCase {
     pub rplan: ReadPlan,
     /// also execute the loaded program and compare with the original's run
     pub execute: bool,
+    /// writer == "foreign" only: Some(seed) = the foreign node does not intern strings (same program, other pool)
+    pub nointern: Option<u64>,
 }
 
 impl CycleCase {
     pub fn to_json(&self) -> Value {
         json!({"engine": ENGINE, "property": self.which.id(), "program": self.spec.to_json(), "write_stack": self.wstack.name(),
-               "write_plan": self.wplan.to_json(), "writer": self.writer, "read_stack": self.rstack.to_json(), "read_plan": self.rplan.to_json(), "execute": self.execute})
+               "write_plan": self.wplan.to_json(), "writer": self.writer, "read_stack": self.rstack.to_json(), "read_plan": self.rplan.to_json(), "execute": self.execute, "nointern": self.nointern})
     }
     pub fn from_json(v: &Value) -> Option<CycleCase> {
         Some(CycleCase {
@@ -63,6 +65,7 @@ impl CycleCase {
             rstack: ReadStack::from_json(v.get("read_stack")?)?,
             rplan: ReadPlan::from_json(v.get("read_plan")?)?,
             execute: v.get("execute").and_then(|e| e.as_bool()).unwrap_or(true),
+            nointern: v.get("nointern").and_then(|e| e.as_u64()),
         })
     }
 }
@@ -105,8 +108,10 @@ pub struct Probe {
 /// One cycle under one case. Returns Some((oracle, detail)) on violation.
 pub fn run_cycle(case: &CycleCase, b: &Built, probe: &mut Probe) -> Option<(String, String)> {
     // ---- save -------------------------------------------------------------------------------
+    let variant: Option<FModel> = match (case.writer, case.nointern) { ("foreign", Some(seed)) => Some(foreign::without_interning(&b.model, seed)), _ => None };
+    let model_ref: &FModel = variant.as_ref().unwrap_or(&b.model);
     let image: Vec<u8> = if case.writer == "foreign" {
-        foreign::encode(&b.model)
+        foreign::encode(model_ref)
     } else {
         let budget = 4 * b.reference.len() + 2 * case.wplan.transient_count() + 1024;
         let w = write_under_plan(&b.program, case.wstack, Teardown::FlushChecked, &case.wplan, budget, false);
@@ -130,8 +135,8 @@ pub fn run_cycle(case: &CycleCase, b: &Built, probe: &mut Probe) -> Option<(Stri
         match foreign::decode(&image) {
             Err(e) => return Some(("L1:foreign_decoder_rejects_fml_image".into(), e)),
             Ok((m, _)) => {
-                if m != b.model {
-                    return Some(("L2:foreign_decode_differs_from_program".into(), describe_model_difference(&b.model, &m)));
+                if m != (*model_ref) {
+                    return Some(("L2:foreign_decode_differs_from_program".into(), describe_model_difference(model_ref, &m)));
                 }
             }
         }
@@ -139,7 +144,7 @@ pub fn run_cycle(case: &CycleCase, b: &Built, probe: &mut Probe) -> Option<(Stri
     if case.which == Which::C04 && case.writer == "foreign" {
         // sanity of the stub itself: its decoder must read back its own encoder (harness invariant)
         match foreign::decode(&image) {
-            Ok((m, _)) if m == b.model => {}
+            Ok((m, _)) if m == (*model_ref) => {}
             other => {
                 eprintln!("HARNESS-ERROR foreign codec is not self-inverse: {:?}", other.err());
                 std::process::exit(2);
@@ -179,9 +184,9 @@ pub fn run_cycle(case: &CycleCase, b: &Built, probe: &mut Probe) -> Option<(Stri
         Ok(m) => m,
         Err(e) => return Some((format!("{}:loaded_program_inconsistent", if case.writer == "foreign" { "L4" } else { "R2" }), e)),
     };
-    if loaded_model != b.model {
+    if loaded_model != (*model_ref) {
         let clean = read_under_plan(&image, ReadStack::Raw, &ReadPlan::clean(), budget);
-        let clean_ok = clean.program.ok().and_then(|p| foreign::model_of(&p).ok()).map(|m| m == b.model).unwrap_or(false);
+        let clean_ok = clean.program.ok().and_then(|p| foreign::model_of(&p).ok()).map(|m| m == (*model_ref)).unwrap_or(false);
         let oracle = if clean_ok && !case.rplan.is_clean() {
             format!("{}:load_depends_on_delivery_schedule", if case.writer == "foreign" { "L4" } else { "R6" })
         } else if case.writer == "foreign" {
@@ -189,7 +194,7 @@ pub fn run_cycle(case: &CycleCase, b: &Built, probe: &mut Probe) -> Option<(Stri
         } else {
             "R2:program_changed_by_cycle".to_string()
         };
-        return Some((oracle, describe_model_difference(&b.model, &loaded_model)));
+        return Some((oracle, describe_model_difference(model_ref, &loaded_model)));
     }
     // (full `Program` equality incl. code addresses is observed, not demanded: C03 does not promise it)
     if b.compiler_output && loaded == b.program {
@@ -359,15 +364,15 @@ fn exercise(which: Which, name: &str, spec: &ProgSpec, rng: &mut Rng, random_pla
     let writers: &[&'static str] = match which { Which::C03 => &["fml"], Which::C04 => &["fml", "foreign"] };
     for &writer in writers {
         // fault-free cycle
-        cases.push(CycleCase { which, spec: spec.clone(), wstack: Stack::Raw, wplan: WritePlan::clean(), writer, rstack: ReadStack::Raw, rplan: ReadPlan::clean(), execute: true });
+        cases.push(CycleCase { which, spec: spec.clone(), wstack: Stack::Raw, wplan: WritePlan::clean(), writer, rstack: ReadStack::Raw, rplan: ReadPlan::clean(), execute: true, nointern: None });
         // every chunk size of the fixed set, raw and through BufReader
         for &k in &CHUNKS {
             if k <= b.reference.len() || k == 1 {
-                cases.push(CycleCase { which, spec: spec.clone(), wstack: Stack::Raw, wplan: WritePlan::clean(), writer, rstack: ReadStack::Raw, rplan: ReadPlan::chunk(k), execute: k == 1 });
+                cases.push(CycleCase { which, spec: spec.clone(), wstack: Stack::Raw, wplan: WritePlan::clean(), writer, rstack: ReadStack::Raw, rplan: ReadPlan::chunk(k), execute: k == 1, nointern: None });
             }
         }
         for &cap in &[1usize, 3, 16, 8192] {
-            cases.push(CycleCase { which, spec: spec.clone(), wstack: Stack::Raw, wplan: WritePlan::clean(), writer, rstack: ReadStack::BufReader(cap), rplan: ReadPlan::chunk(1 + rng.usize_below(5)), execute: false });
+            cases.push(CycleCase { which, spec: spec.clone(), wstack: Stack::Raw, wplan: WritePlan::clean(), writer, rstack: ReadStack::BufReader(cap), rplan: ReadPlan::chunk(1 + rng.usize_below(5)), execute: false, nointern: None });
         }
         // seeded: transient write plan on a random stack + random read plan
         for _ in 0..random_plans {
@@ -377,7 +382,9 @@ fn exercise(which: Which, name: &str, spec: &ProgSpec, rng: &mut Rng, random_pla
             let rstack = if rng.below(3) == 0 { ReadStack::BufReader(*rng.pick(&[1usize, 2, 5, 64, 1024, 8192])) } else { ReadStack::Raw };
             let rplan = random_read_plan(rng, b.reference.len());
             let execute = rng.below(3) == 0;
-            cases.push(CycleCase { which, spec: spec.clone(), wstack, wplan, writer, rstack, rplan, execute });
+            let nointern = if writer == "foreign" && b.original_run.is_some() && rng.coin() { Some(rng.next_u64()) } else { None };
+            let execute = execute || nointern.is_some();
+            cases.push(CycleCase { which, spec: spec.clone(), wstack, wplan, writer, rstack, rplan, execute, nointern });
         }
     }
     let mut any_write_fault = 0u64;
@@ -385,6 +392,7 @@ fn exercise(which: Which, name: &str, spec: &ProgSpec, rng: &mut Rng, random_pla
     let mut eintr = 0u64;
     let mut ran = 0u64;
     let mut identical = 0u64;
+    let mut nointern_n = 0u64;
     for case in cases {
         let mut probe = Probe::default();
         let verdict = run_cycle(&case, &b, &mut probe);
@@ -394,8 +402,9 @@ fn exercise(which: Which, name: &str, spec: &ProgSpec, rng: &mut Rng, random_pla
         if probe.eintr_fired { eintr += 1; }
         if probe.ran_both { ran += 1; }
         if probe.program_value_identical { identical += 1; }
+        if case.nointern.is_some() { nointern_n += 1; }
         if probe.write_fault_fired || probe.read_fault_fired {
-            out.distinct.push(digest_of(&(digest, case.writer, case.wstack, &case.wplan, case.rstack, &case.rplan)));
+            out.distinct.push(digest_of(&(digest, case.writer, case.wstack, &case.wplan, case.rstack, &case.rplan, case.nointern)));
         }
         if let Some((o, d)) = verdict {
             if out.violations.len() < 16 { out.violations.push((case.clone(), o, d)); }
@@ -410,6 +419,7 @@ fn exercise(which: Which, name: &str, spec: &ProgSpec, rng: &mut Rng, random_pla
     out.counters.push(("cycles_with_read_cut_or_eintr_fired", any_read_fault));
     out.counters.push(("cycles_with_read_eintr_fired", eintr));
     out.counters.push(("cycles_that_executed_original_and_loaded_program", ran));
+    out.counters.push(("cycles_with_foreign_writer_that_does_not_intern_strings", nointern_n));
     out.counters.push(("informational.cycles_where_loaded_Program_value_equals_compiled_Program", identical));
     if b.reference.len() > 65536 { out.counters.push(("probe.image_over_64KiB", 1)); }
     if b.model.consts.len() > 255 { out.counters.push(("probe.pool_over_255_constants", 1)); }
